@@ -132,15 +132,31 @@ func expectRune(v int) []byte {
 // H_c19_numref_hex: "&#x" h{1..k} ";" resolves to the UTF-8 encoding of the code point, U+FFFD when out of range.
 func H_c19_numref_hex() {
 	k := vp.ParamInt("k", 2)
+	prefix := vp.ParamStr("prefix", "") // concrete leading hex digits (long references)
 	d := vp.Bytes("d", k)
 	v := 0
+	over := false // more than 32 bits of value
+	for i := 0; i < len(prefix); i++ {
+		v = v*16 + hexVal(prefix[i])
+		if v > 0xFFFFFFFF {
+			over = true
+			v = 0x7FFFFFFF
+		}
+	}
 	for i := range d {
 		vp.Assume(isHex(d[i]))
+		if over {
+			continue
+		}
 		v = v*16 + hexVal(d[i])
+		if len(prefix)+i+1 > 8 {
+			// nine or more significant digits: certainly out of range unless all leading ones are zero
+			v = vp.IteInt(v > 0x10FFFF, 0x7FFFFFFF, v)
+		}
 	}
 	x := vp.Byte("x")
 	vp.Assume(vp.InSet(x, "xX"))
-	in := append(append([]byte{'&', '#', x}, d...), ';')
+	in := append(append(append([]byte{'&', '#', x}, prefix...), d...), ';')
 	vp.Observe("in", in)
 	out := util.ResolveNumericReferences(in)
 	vp.Observe("out", out)
